@@ -154,6 +154,45 @@ def mc(module, cfg, workers=16, timeout=1700, xmx="16g", coverage=False):
     return dict(module=module, cfg=cfg, states=r["distinct"], transitions=r["generated"])
 
 
+def gen_export(module, cfg, name):
+    """gen step: TLC evaluates the specification's tables and writes them as JSON."""
+    out = os.path.join(WORK, "%s-%d.json" % (name, os.getpid()))
+    r = tlc(module, cfg, env=dict(OUT=out), workers=1, timeout=600, xmx="4g")
+    shutil.rmtree(r["wd"], ignore_errors=True)
+    if not r["ok"] or not os.path.exists(out):
+        raise Machinery("gen %s failed:\n%s" % (module, r["error"]))
+    return out
+
+
+def gen_sim(module, cfg, name, num, depth, seed, procs=8):
+    """gen step: TLC simulates behaviours of the specification (procs parallel TLC processes with
+    distinct seeds); each behaviour is one JSON line. Returns the concatenated file."""
+    out = os.path.join(WORK, "%s-%d.ndjson" % (name, os.getpid()))
+    per = max(1, (num + procs - 1) // procs)
+
+    def one(k):
+        o = "%s.%d" % (out, k)
+        r = tlc(module, cfg, env=dict(OUT=o), workers=1, timeout=900, xmx="2g", tag="%s-sim%d" % (module, k),
+                simulate="num=%d" % per, extra=["-depth", str(depth), "-seed", str(seed * 1000 + k)])
+        shutil.rmtree(r["wd"], ignore_errors=True)
+        if not r["ok"] or not os.path.exists(o):
+            raise Machinery("simulation %s failed:\n%s" % (module, r["error"] or r["out"][-2000:]))
+        return o, r["generated"]
+
+    with ThreadPoolExecutor(max_workers=procs) as ex:
+        parts = list(ex.map(one, range(procs)))
+    n = 0
+    with open(out, "w") as w:
+        for o, _ in parts:
+            with open(o) as f:
+                for line in f:
+                    w.write(line)
+                    n += 1
+            os.remove(o)
+    log("[gen] %s: %d behaviours simulated" % (module, n))
+    return out, n
+
+
 def judge(module, files, par=8, timeout=1700, xmx="6g", cfg=None):
     """Validates recorded trace files against the trace spec <module>. Returns
     dict(n, bad=[(file, index, event)], states, extra=[verdict records])."""
